@@ -116,7 +116,7 @@ func checkThresholdBounds(c *Ctx, prop string, setP *ssa.Function) {
 	for _, f := range facts {
 		_ = f
 	}
-	for _, b := range setP.Blocks {
+	for _, b := range blocksDeep(setP) {
 		for _, in := range b.Instrs {
 			if phi, ok := in.(*ssa.Phi); ok {
 				t := ff.Term(phi)
@@ -146,7 +146,7 @@ func checkThresholdBounds(c *Ctx, prop string, setP *ssa.Function) {
 		"validators":           func(t *Term) bool { return t.String() == "p4" },
 	}
 	got := map[string]string{}
-	for _, b := range setP.Blocks {
+	for _, b := range blocksDeep(setP) {
 		for _, in := range b.Instrs {
 			if st, ok := in.(*ssa.Store); ok {
 				if fa, ok := st.Addr.(*ssa.FieldAddr); ok {
@@ -181,7 +181,7 @@ func storesToField(root *ssa.Function, owner, field string) []*ssa.Store {
 
 func storesToField1(fn *ssa.Function, owner, field string) []*ssa.Store {
 	var out []*ssa.Store
-	for _, b := range fn.Blocks {
+	for _, b := range blocksDeep(fn) {
 		for _, in := range b.Instrs {
 			if st, ok := in.(*ssa.Store); ok {
 				if fa, ok := st.Addr.(*ssa.FieldAddr); ok {
@@ -392,7 +392,7 @@ func runC02(c *Ctx) {
 	nClean := 0
 	for _, f := range order {
 		bad := 0
-		for _, b := range f.Blocks {
+		for _, b := range blocksDeep(f) {
 			for _, in := range b.Instrs {
 				switch x := in.(type) {
 				case *ssa.Go:
@@ -431,7 +431,7 @@ func runC02(c *Ctx) {
 	c.Require("C02.D1 no-nondeterminism", "all reachable functions", "-", fmt.Sprintf("%d functions scanned: no go/select/clock/random/env", len(order)), true, "")
 	// package-level mutable variables written after init
 	for _, f := range order {
-		for _, b := range f.Blocks {
+		for _, b := range blocksDeep(f) {
 			for _, in := range b.Instrs {
 				if st, ok := in.(*ssa.Store); ok {
 					if g, ok := st.Addr.(*ssa.Global); ok && strings.HasPrefix(relPkgName(g.Pkg.Pkg), "consensus/liskbft") {
